@@ -92,7 +92,7 @@ func checkIdentity(run *evid.Run, id *idp.Identity, name string, wit func() map[
 
 func CheckC20(run *evid.Run) {
 	nseq := pick(run.Tier, 200, 3000)
-	run.Rule = "seeded sequential interleavings of {create key, get, has, create identity, new keystore instance ('restart'), sign+verify an entry} over 1-4 real Keystore instances sharing one instrumented datastore and 1-400 ids (beyond the 128-entry cache), each id created once; a reference map id -> key bytes decides HasKey/GetKey on EVERY instance after every creation and on probes of never-created ids; identity clauses are verified directly with libp2p using only the published bytes; thorough adds concurrent use on distinct ids under the race detector. Non-trivial sequence = touched >128 ids or used >=2 instances; distinct = (ids bucket, instances, restarts bucket)"
+	run.Rule = "seeded sequential interleavings of {create key, get, has, create identity, new keystore instance ('restart'), sign+verify an entry} over 1-4 real Keystore instances sharing one instrumented datastore and 1-400 ids (beyond the 128-entry cache), each id created once, half of them after OTHER instances were asked about the id while it did not exist yet; a reference map id -> key bytes decides HasKey/GetKey on EVERY instance after every creation and on probes of never-created ids; identity clauses are verified directly with libp2p using only the published bytes; thorough adds concurrent use on distinct ids under the race detector. Non-trivial sequence = touched >128 ids or used >=2 instances; distinct = (ids bucket, instances, restarts bucket)"
 	var anyEvict int64
 	parallel(nseq, func(i int) {
 		rng := rand.New(rand.NewSource(run.Seed*2750159 + int64(i)))
